@@ -15,6 +15,8 @@ struct Round { std::vector<Tr> pending; bool cancelled = false; int firstEv = -1
 struct Step {
 	std::vector<Round> rounds;
 	std::vector<Tr> approved;        // requests of the rounds nobody vetoed, in order
+	std::vector<Tr> phantom;         // requests the guards of the last observed round issued: a further round may have run without consulting anyone
+	bool phantomReal = false;
 	int firstLifecycle = -1;         // index of the first enter/exit/reenter callback
 	int lastGuard = -1;
 	bool anyIssue = false;
@@ -42,6 +44,13 @@ Step analyse(const Harness& h) {
 		if (e.k == EV_ISSUE) st.anyIssue = true;
 	}
 	for (auto& r : st.rounds) if (!r.cancelled) st.approved.insert(st.approved.end(), r.pending.begin(), r.pending.end());
+	if (!st.rounds.empty()) {
+		int cur = -1;
+		for (auto& e : h.trace) {
+			if ((e.k == EV_CB || e.k == EV_INJ) && isGuardM(e.method)) cur = e.round; else if (e.k == EV_CB || e.k == EV_INJ) cur = -1;
+			if (e.k == EV_ISSUE && cur == int(st.rounds.size()) - 1) { Tr t; t.origin = e.state; t.kind = e.a; t.dest = e.b; t.hasPayload = e.hasP; t.payload = e.p; st.phantom.push_back(t); if (e.a != K_SCHEDULE) st.phantomReal = true; }
+		}
+	}
 	return st;
 }
 
@@ -83,11 +92,12 @@ struct Resolve {
 	std::vector<uint8_t> conflict;         // two requests wanted different things
 	std::vector<uint8_t> dontCare;
 	std::vector<int> schedule;             // per region: prong given by a schedule request, -1 none
+	std::vector<std::vector<int>> alts;    // per region: other children float rounding could legitimately have picked
 	int randomResolved = 0;
 	bool usedSelect = false;
 
 	Resolve(const Shape& s, const Op* o, const Cfg& b) : sh(s), op(o), before(b), req(size_t(s.n), -1), how(size_t(s.n), -1), setBy(size_t(s.n), -1),
-		conflict(size_t(s.n), 0), dontCare(size_t(s.n), 0), schedule(size_t(s.n), -1) {}
+		conflict(size_t(s.n), 0), dontCare(size_t(s.n), 0), schedule(size_t(s.n), -1), alts(size_t(s.n)) {}
 
 	const Resolver* res(int s) const { if (op) for (auto& r : op->res) if (r.state == s) return &r; return nullptr; }
 	int   selectOf(int s) const { const Resolver* r = res(s); const int w = sh.st[size_t(s)].width; int v = r ? r->select : 0; return ((v % w) + w) % w; }
@@ -137,10 +147,15 @@ struct Resolve {
 		case K_SELECT: c = selectOf(r); usedSelect = true; break;
 		case K_UTILIZE: {
 			long double best = -1; c = 0;
+			std::vector<long double> us;
 			for (int k = 0; k < sh.st[size_t(r)].width; ++k) {
 				const long double u = utility(sh.kids[size_t(r)][size_t(k)], kind == K_CHANGE ? K_CHANGE : K_UTILIZE, by, false);
+				us.push_back(u);
 				if (u > best) { best = u; c = k; }
 			}
+			// the library multiplies in float: candidates within a few ulps of the maximum are indistinguishable
+			alts[size_t(r)].clear();
+			for (int k = 0; k < int(us.size()); ++k) if (k != c && us[size_t(k)] >= best - best * 1e-6L) alts[size_t(r)].push_back(k);
 			break; }
 		case K_RANDOMIZE: {
 			++randomResolved;
@@ -154,11 +169,14 @@ struct Resolve {
 				sum += u[size_t(k)];
 			}
 			const long double cursor = (long double) rnd() * sum;
+			const long double slack = sum * 4.8e-7L;                    // 4 ulp of the float sum
 			long double acc = 0; c = -1;
+			alts[size_t(r)].clear();
 			for (int k = 0; k < sh.st[size_t(r)].width; ++k) {
 				if (u[size_t(k)] <= 0) continue;
-				acc += u[size_t(k)];
-				if (cursor < acc) { c = k; break; }
+				const long double lo = acc; acc += u[size_t(k)];
+				if (c < 0 && cursor < acc) c = k;
+				if (cursor >= lo - slack && cursor < acc + slack) alts[size_t(r)].push_back(k);
 			}
 			if (c < 0) for (int k = sh.st[size_t(r)].width - 1; k >= 0; --k) if (u[size_t(k)] > 0) { c = k; break; }
 			break; }
@@ -401,7 +419,7 @@ static void checkRounds(World& w, int i, const Op& op, const Obs& before, const 
 	for (auto& r : st.rounds) { if (!r.cancelled) allVetoed = false; for (auto& q : r.pending) if (q.kind == K_SCHEDULE) anySchedule = true; }
 	for (auto& q : before.queued) if (q.kind == K_SCHEDULE) anySchedule = true;
 	for (auto& e : h.trace) if (e.k == EV_ISSUE && e.a == K_SCHEDULE) anySchedule = true;
-	if (allVetoed && processingOp(op)) {
+	if (allVetoed && processingOp(op) && !st.phantomReal) {
 		w.checked("C04.veto_atomic");
 		w.probe("all_rounds_vetoed");
 		if (st.firstLifecycle >= 0) {
@@ -420,7 +438,7 @@ static void checkGuardPending(World& w, int i, const Op& op, const Obs& before, 
 	Slot& s = w.slots[size_t(i)];
 	const Harness& h = *s.h;
 	const Shape& sh = *h.shape;
-	if (st.rounds.size() != 1 || st.rounds[0].cancelled || st.rounds[0].pending.size() != 1 || st.rounds[0].pending[0].kind == K_SCHEDULE) return;
+	if (st.rounds.size() != 1 || st.phantomReal || st.rounds[0].cancelled || st.rounds[0].pending.size() != 1 || st.rounds[0].pending[0].kind == K_SCHEDULE) return;
 	if (!before.alive || !before.activated) return;
 	std::vector<int> enters(size_t(sh.n), 0), exits(size_t(sh.n), 0);
 	for (auto& e : h.trace) if (e.k == EV_CB) { if (e.method == M_ENTER) ++enters[size_t(e.state)]; if (e.method == M_EXIT) ++exits[size_t(e.state)]; }
@@ -445,7 +463,7 @@ static void checkGuardPending(World& w, int i, const Op& op, const Obs& before, 
 				if (pe == expE && !expE && !expX) tag = "pending_true_when_idle";                 // untouched region: exit/change spuriously true
 				else if (pe == expE && expX && !px) tag = "pending_exit_not_propagated";         // exits below a switched ancestor are not reported
 				else if (expE && !pe) tag = "pending_enter_not_propagated";                       // enters below a switched ancestor are not reported
-				else if (pe && !expE && px == expX && sh.usesUtility) tag = "pending_enter_stale_after_utility_evaluation";   // evaluating branches that are not chosen leaves their requests behind
+				else if (pe && !expE && px == expX && (sh.usesUtility || st.rounds[0].pending[0].kind == K_UTILIZE || st.rounds[0].pending[0].kind == K_RANDOMIZE)) tag = "pending_enter_stale_after_utility_evaluation";   // evaluating branches that are not chosen leaves their requests behind
 				w.violate("C13.guard_pending", b, i, tag);
 				return;
 			}
@@ -474,14 +492,15 @@ static void checkHistory(World& w, int i, const Op& op, const Obs& before, const
 	w.checked("C09.prev_content");
 	// nothing else: every recorded entry is a request of an approved round, in order, none twice
 	if (!st.rounds.empty() || prev.empty()) {
-		if (!isSubsequence(prev, st.approved)) {
+		std::vector<Tr> allowed = st.approved; allowed.insert(allowed.end(), st.phantom.begin(), st.phantom.end());
+		if (!isSubsequence(prev, allowed)) {
 			std::snprintf(b, sizeof b, "%s: previousTransitions() holds %zu entries that are not a sub-sequence of the %zu request(s) of approved rounds", h.role.c_str(), prev.size(), st.approved.size());
 			w.violate("C09.prev_content", b, i);
 		}
 	}
 	bool changed = before.alive && before.activated && s.obs.active != before.active;
 	if (changed && prev.empty() && processingOp(op)) w.violate("C09.prev_content", h.role + ": the step changed the active configuration but previousTransitions() is empty", i);
-	if (st.approved.empty() && !prev.empty() && !st.rounds.empty()) w.violate("C09.prev_content", h.role + ": nothing was approved, yet previousTransitions() is not empty", i);
+	if (st.approved.empty() && st.phantom.empty() && !prev.empty() && !st.rounds.empty()) w.violate("C09.prev_content", h.role + ": nothing was approved, yet previousTransitions() is not empty", i);
 	// lastTransitionTo: null or inside the array
 	w.checked("C09.last_to");
 	for (int k = 0; k < sh.n; ++k) {
@@ -489,7 +508,7 @@ static void checkHistory(World& w, int i, const Op& op, const Obs& before, const
 		if (v == -2 || v >= int(prev.size())) { std::snprintf(b, sizeof b, "%s: lastTransitionTo(%d) points outside previousTransitions()", h.role.c_str(), k); w.violate("C09.last_to", b, i); return; }
 	}
 	// after a single approved request: it is the last transition to every state it activated
-	if (st.rounds.size() == 1 && !st.rounds[0].cancelled && st.approved.size() == 1 && st.approved[0].kind != K_SCHEDULE && prev.size() == 1 && before.alive && before.activated) {
+	if (st.rounds.size() == 1 && !st.phantomReal && !st.rounds[0].cancelled && st.approved.size() == 1 && st.approved[0].kind != K_SCHEDULE && prev.size() == 1 && before.alive && before.activated) {
 		w.checked("C09.last_to_single");
 		for (int k = 0; k < sh.n; ++k) {
 			if (before.active[size_t(k)] || !s.obs.active[size_t(k)]) continue;
@@ -526,7 +545,7 @@ static void checkConfiguration(World& w, int i, const Op& op, const Obs& before,
 		for (int k = 0; k < sh.n; ++k) if (s.obs.resumable[size_t(k)]) { std::snprintf(b, sizeof b, "%s: after reset() state %d is still resumable", h.role.c_str(), k); w.violate("C02.reset", b, i); return; }
 		for (int g = 0; g < sh.n; ++g) {
 			if (!sh.isCompo(g) || ca.active[size_t(g)] < 0 || r.req[size_t(g)] < 0 || r.dontCare[size_t(g)]) continue;
-			if (ca.active[size_t(g)] != r.req[size_t(g)]) {
+			if (ca.active[size_t(g)] != r.req[size_t(g)] && std::find(r.alts[size_t(g)].begin(), r.alts[size_t(g)].end(), ca.active[size_t(g)]) == r.alts[size_t(g)].end()) {
 				std::snprintf(b, sizeof b, "%s: after reset() region %d has sub-state %d active; its first activation (declared strategy %d) would pick %d", h.role.c_str(), g, ca.active[size_t(g)], sh.st[size_t(g)].strategy, r.req[size_t(g)]);
 				w.violate("C02.reset", b, i); return;
 			}
@@ -552,6 +571,7 @@ static void checkConfiguration(World& w, int i, const Op& op, const Obs& before,
 		return;
 	}
 	if (st.approved.empty()) return;      // C04 covers vetoed steps
+	if (st.phantomReal) return;           // a further, unobservable round may have applied more requests
 
 	Resolve r(sh, h.op, cb);
 	int nReal = 0;
@@ -602,6 +622,7 @@ static void checkConfiguration(World& w, int i, const Op& op, const Obs& before,
 		w.checked(oracle);
 		if (how == K_RANDOMIZE) w.probe("random_region_resolved");
 		if (ca.active[size_t(g)] == r.req[size_t(g)]) continue;
+		if (isUtil && std::find(r.alts[size_t(g)].begin(), r.alts[size_t(g)].end(), ca.active[size_t(g)]) != r.alts[size_t(g)].end()) { w.probe("utility_within_rounding"); continue; }
 		if (r.conflict[size_t(g)] || touched[size_t(g)] > 1) {
 			std::snprintf(b, sizeof b, "%s: region %d: requests of one batch disagree; the later one prescribes sub-state %d but %d is active", h.role.c_str(), g, r.req[size_t(g)], ca.active[size_t(g)]);
 			w.violate(oracle, b, i, "batch_later_request_not_overriding"); return;
@@ -633,7 +654,8 @@ static void checkConfiguration(World& w, int i, const Op& op, const Obs& before,
 		int expect; bool care = true;
 		const bool left = was >= 0 && is != was;                    // exited or switched
 		bool bounced = false;                                        // exited and re-entered within the step (restart in place): statement is silent
-		if (!sh.st[size_t(g)].headless) for (auto& e : h.trace) if (e.k == EV_CB && e.state == g && (e.method == M_EXIT || e.method == M_ENTER)) bounced = true;
+		if (!sh.st[size_t(g)].headless) { for (auto& e : h.trace) if (e.k == EV_CB && e.state == g && (e.method == M_EXIT || e.method == M_ENTER)) bounced = true; }
+		else for (auto& e : h.trace) if (e.k == EV_CB && (e.method == M_EXIT || e.method == M_ENTER) && e.state > g && sh.inSubtree(e.state, g)) bounced = true;   // no head callbacks: judge by the sub-states
 		if (left && sched >= 0) care = false;                        // both apply; order not fixed by the statement
 		else if (left) expect = was;
 		else if (sched >= 0) expect = sched;
